@@ -686,12 +686,16 @@ class Tensor(object):
 
         if not isinstance(other, Tensor):  # A scalar
             result = self.clone()
-            factor = np.abs(other) ** (
-                1 / self.dim()
-            )  # We scale all cores by the same factor to prevent precision issues
+            if isinstance(other, torch.Tensor):  # A 0-dim tensor: it may carry a graph, stay in PyTorch
+                factor = torch.abs(other) ** (1 / self.dim())
+                sign = torch.sign(other)
+            else:
+                factor = np.abs(other) ** (1 / self.dim())
+                sign = np.sign(other)
+            # We scale all cores by the same factor to prevent precision issues
             for n in range(self.dim()):
                 result.cores[n] = result.cores[n] * factor
-            result.cores[0] = result.cores[0] * np.sign(other)
+            result.cores[0] = result.cores[0] * sign
             return result
 
         if self.batch:
